@@ -140,6 +140,24 @@ def run(rng, tier, model_ok):
             cases.append((1, vlib.chars(s), [-3]))
         else:
             cases.append((1, vlib.chars(s), expected_of(r)))
+    # histories on one thread: other entry points of the library that lex and parse (a unit text through str::parse::<Compound>, a
+    # number through str::parse::<Rational>, a failing and a succeeding query) run right before a text is lexed and parsed; a unit
+    # text may stop before its end (trailing blanks, operators, closing parentheses): nothing of it may reach the next parse
+    hist = []
+    utexts = ["km ", "m /s", "kg )", "m s^-2 +", "km/hr to", " m", "N m,", "m (", "s 2", "°C }", "m^2 m^", "", "q", "m/", "ft\u00a0", "kg\t\t"]
+    qtexts = ["1 + 2", "3 m to cm", "(1)", "2 * (3 + 4)", " 7 ", "a b", "round(1.5, 1)", "1 )", "{x}"] + strings[-12:]
+    for u in utexts:
+        for q in qtexts:
+            hist += [("U", u), ("T", q), ("R", u), ("T", q), ("Q", u), ("T", q)]
+    hrep = vlib.run_impl(["%s %s" % (c, vlib.hx(x)) for c, x in hist], shards=1)
+    nh = 0
+    for i, ((c, x), r) in enumerate(zip(hist, hrep)):
+        if c == "T":
+            nh += 1
+            why = oracle(x, r)
+            if why:
+                failures.append({"input": x, "input_hex": vlib.hx(x), "why": "after another text went through the library on the same thread: " + why,
+                                 "got": r, "kind": "history", "before": list(hist[i - 1]) if i else None})
     mismatches = []
     if model_ok:
         bad = vlib.coq_eval_cases(cases, "C12", shard_size=400)
@@ -154,10 +172,10 @@ def run(rng, tier, model_ok):
         "evaluations": len(strings), "distinct_nontrivial": len(distinct),
         "rule": "all strings of length <= %d over a %d-symbol alphabet (digits, operators, letters, braces, multi-byte characters, "
                 "Unicode blanks) exhaustively, random longer strings over it, every special character in ten positions, nesting to depth 300, every operator chain over + * ^ to up to five (thorough: six) operators, and random well-formed queries with random "
-                "layouts; non-trivial = distinct strings lexing to at least two tokens" % (maxlen, len(ALPHABET)),
+                "layouts, and parses right after other texts went through the library on the same thread; non-trivial = distinct strings lexing to at least two tokens" % (maxlen, len(ALPHABET)),
         "samples": [strings[i] for i in (exhaustive // 2, exhaustive + 5, len(strings) - 3)],
         "mismatches": mismatches, "failures": failures,
-        "extra": {"exhaustive_strings": exhaustive, "exhaustive": False, "token_kind_histogram": kinds,
+        "extra": {"history_parses": nh, "exhaustive_strings": exhaustive, "exhaustive": False, "token_kind_histogram": kinds,
                   "parse_fuel_exhausted_in_model": sum(1 for m in mismatches if m["model"][-1:] == [0])},
     }
 
